@@ -61,6 +61,21 @@ pub fn draw_order_tail(rng: &mut Rng, max: usize) -> usize {
     }
 }
 
+/// An order from the giant band only: half of the draws on and around multiples of 64 / 256 / 512 and
+/// powers of two, half anywhere in 300..=cap.
+pub fn draw_giant(rng: &mut Rng, cap: usize) -> usize {
+    let specials: Vec<usize> = [319, 320, 321, 383, 384, 385, 448, 511, 512, 512, 513, 521, 576, 640, 767, 768, 769, 1000, 1023, 1024, 1024, 1025, 1088, 1535, 1536, 1537, 1649, 1999, 2000, 2047, 2048]
+        .iter()
+        .copied()
+        .filter(|&x| x <= cap)
+        .collect();
+    if rng.chance(1, 2) && !specials.is_empty() {
+        *rng.pick(&specials)
+    } else {
+        rng.range(300, cap.max(300))
+    }
+}
+
 pub fn draw_p(rng: &mut Rng) -> f64 {
     match rng.below(10) {
         0 => 0.0,
